@@ -1,5 +1,6 @@
 /* prelude for generated C: arithmetic macros (bit-precise or uninterpreted) */
 #include <stddef.h>
+#include "spec/mathuf.h"   /* <cmath> functions: uninterpreted for the verifier, libm natively */
 #ifdef VERIF_NATIVE_C
 /* native compilation of the generated C (translation validation): verifier primitives vanish */
 #define __CPROVER_assert(c, m) ((void)0)
